@@ -18,7 +18,8 @@
     [last_sb tr t]: index of the last fetch_add that opened a scan of thread [t];
     [cnt name p tr]: number of client events [name p]. *)
 From Coq Require Import ZArith List String.
-From LV Require Import Base.Conc Base.Events Model.Hp Proofs.HpTrace Proofs.HpInv Proofs.HpProofs Proofs.HpDestroy.
+From LV Require Import Base.Conc Base.Events Model.Hp Proofs.HpTrace Proofs.HpInv Proofs.HpProofs Proofs.HpDestroy
+  Proofs.HpLive.
 Import ListNotations.
 Local Open Scope Z_scope.
 Local Open Scope string_scope.
@@ -84,7 +85,8 @@ Print Assumptions C01_guard_set_after_retire.
 
 (** (3) reduction of the full statement to three facts about the client's guard: if (a) slot (r,j) held p from
     some step g0 up to the step v at which protect returned, (b) p had not been passed to retire() before g0,
-    (c) nothing is stored into slot (r,j) between v and d, then no disposer call on p can happen at d. *)
+    (c) nothing is stored into slot (r,j) between v and d, then no disposer call on p can happen at d.
+    ([C01_guarded_ptr_live] below derives (a), (b), (c) from the client discipline.) *)
 Theorem C01_guarded_ptr_live_reduction :
   forall (c : cfgT) (ths : list (list op)) cf,
     Conc.reach (Hp.init_cfg c ths) cf ->
@@ -99,31 +101,23 @@ Theorem C01_guarded_ptr_live_reduction :
 Proof. exact hp_guarded_ptr_live_from_slot_facts. Qed.
 Print Assumptions C01_guarded_ptr_live_reduction.
 
-(** The full statement, NOT proved (kept visible).  What remains is to derive (a), (b), (c) of the reduction above
-    from the client discipline: (a)+(c) need "only the thread attached to record r stores into its slots, and only
-    inside protect/assign/clear/copy/detach" as a trace fact; (b) needs the history of the client sources (protect's
-    re-load saw p in the source => p not unlinked yet => not retired yet).  Client discipline, as a predicate on the trace:
-    every object is published at most once and retired at most once, an object that was ever published is retired
-    only by the thread that unlinked it, right after the unlinking exchange; guards are taken by protect() on a
-    source (or by copying a live guard into a HIGHER slot, not expressed below); under it, between the event
-    "protected j p" of thread t and the next event of t that releases slot j, no "dispose p" occurs.
-    Missing for a proof: the client-side half (protect's re-load saw p in the source, so p had not been unlinked,
-    hence not retired, when the slot was set) -- it needs the history of the client sources and the
-    retire-after-unlink order in the invariant; with it the statement follows from [C01_guard_set_after_retire]. *)
-Definition releases (j : nat) (e : ev) : Prop :=
-  match e with
-  | EvCli n (x :: _) => (n = "protect" \/ n = "assign" \/ n = "clear" \/ n = "copy") /\ x = zn j
-  | EvCli n [] => n = "detach"
-  | _ => False
-  end.
-Definition client_discipline (tr : trace) : Prop :=
-  retire_once tr /\
-  (forall p, p <> 0 -> forall i i' u u' k k', nth_error tr i = Some (u, EvCli "publish" [k; p]) ->
-     nth_error tr i' = Some (u', EvCli "publish" [k'; p]) -> i = i') /\
-  (forall i u p, nth_error tr i = Some (u, EvCli "retire" [p]) ->
-     (exists i0, i = S i0 /\ nth_error tr i0 = Some (u, EvCli "unlinked" [p])) \/
-     (forall i' u' k, nth_error tr i' <> Some (u', EvCli "publish" [k; p]))) /\
-  (forall i u j o, nth_error tr i = Some (u, EvCli "assign" [j; o]) -> o = 0).
+(** The second sentence itself.  Client discipline, a predicate on the trace ([HpLive.client_discipline]): no object is
+    retired twice; every object is published (exchanged into a client source) at most once; an object that was ever
+    published is retired only by the thread that unlinked it, right after the unlinking exchange; (raw assign of a
+    non-null pointer is not used: guards are taken by protect()).  [HpLive.releases j e]: e is the start of an
+    operation of the thread that rewrites its guard slot j (protect / assign / clear / copy into j) or of detach.
+
+    Under this discipline, in every reachable configuration: if protect() of thread t returned p into slot j
+    (event "protected j p" at index v) and p is given to its disposer at a later index d, then thread t started a
+    releasing operation on slot j between v and d.  I.e. from the moment protect returns until the guard is
+    released, the object is not disposed.
+    Proof (LV.Proofs.HpLive): the trace invariant [TrOK] records, for every ghost event, what it says about the
+    trace before it (a slot is stored only by the thread attached to the record, inside an operation on that slot;
+    attachment is exclusive; protect's last slot store was followed by a load of the source that read the same
+    pointer; an exchange unlinks what the source held); the discipline then shows retire(p) cannot precede the
+    slot store; [C01_guarded_ptr_live_reduction] concludes.
+    Copies: a guard obtained by Guard::copy is NOT covered (see [C01_copy_down_unsafe] for why a copy into a lower
+    slot cannot be). *)
 Definition C01_guarded_ptr_live_statement : Prop :=
   forall (c : cfgT) (ths : list (list op)) cf,
     Conc.reach (Hp.init_cfg c ths) cf -> client_discipline (Conc.trace cf) ->
@@ -131,6 +125,17 @@ Definition C01_guarded_ptr_live_statement : Prop :=
       nth_error (Conc.trace cf) v = Some (t, EvCli "protected" [zn j; p]) ->
       nth_error (Conc.trace cf) d = Some (u, ev_dispose p) ->
       exists i e, (v < i < d)%nat /\ nth_error (Conc.trace cf) i = Some (t, e) /\ releases j e.
+Theorem C01_guarded_ptr_live : C01_guarded_ptr_live_statement.
+Proof. exact hp_guarded_ptr_live. Qed.
+Print Assumptions C01_guarded_ptr_live.
+
+(** non-vacuity of the discipline and of the conclusion: in [C01_example] thread 0 protects object 4 ("protected 0 4"),
+    clears the guard, and only then object 4 is disposed; the trace satisfies the discipline's countable parts. *)
+Example C01_guarded_ptr_live_nonvacuous :
+  let tr := fst C01_example in
+  (exists v, nth_error tr v = Some (0%nat, EvCli "protected" [0; 4])) /\
+  cnt "retire" 4 tr = 1 /\ cnt "dispose" 4 tr = 1.
+Proof. vm_compute. split; [exists 20%nat; reflexivity|split; reflexivity]. Qed.
 
 (** A copy of a guarded pointer into a LOWER slot is not a guard of its own (known finding
     "hp-guard-copy-downward", reproduced on the real library: corpus/C01/010-copy-down.json).
